@@ -194,7 +194,22 @@ fn main() {
                         hs.push(gen2::cancel_history_at(s, Some(polls), thorough, &bounds));
                     }
                     "faults" => {
-                        hs.extend(gen2::mapfull_histories(s));
+                        // measuring run: the same operations under an ample map, to learn the page usage
+                        let probe = gen2::mapfull_histories(s, None, false).pop().unwrap();
+                        exec::PAGES_AFTER_COMMIT.lock().unwrap().clear();
+                        let mut ev = Vec::new();
+                        exec::run_history(&probe, 0, &exec::RunCfg::default(), &mut ev);
+                        let pg = exec::PAGES_AFTER_COMMIT.lock().unwrap().clone();
+                        let pages = if pg.len() >= 2 { Some((pg[0], *pg.last().unwrap())) } else { None };
+                        hs.extend(gen2::mapfull_histories(s, pages, thorough));
+                        // page-granular variant: measure what the last build needs, then enumerate the free pages
+                        let probe = gen2::mapfull_pages_history(s, None, false);
+                        exec::PAGES_AFTER_COMMIT.lock().unwrap().clear();
+                        let mut ev = Vec::new();
+                        exec::run_history(&probe, 0, &exec::RunCfg::default(), &mut ev);
+                        let pg = exec::PAGES_AFTER_COMMIT.lock().unwrap().clone();
+                        let need = if pg.len() >= 3 { Some(pg[2].saturating_sub(pg[1])) } else { None };
+                        hs.push(gen2::mapfull_pages_history(s, need, thorough));
                         hs.push(gen2::tmpdir_history(s));
                     }
                     "mem" => hs.push(gen2::mem_history(s, thorough)),
@@ -293,9 +308,19 @@ fn main() {
             let mut lines = Vec::new();
             let mut points = 0;
             for k in 0..count {
-                let (ev, n) = crash::parent(seed.wrapping_mul(1_000_003).wrapping_add(k as u64), first_no + k, thorough);
-                lines.extend(ev);
-                points += n;
+                // the uninterrupted run and the recoveries execute arroy in this process: a panic there is data
+                let hno = first_no + k;
+                match std::panic::catch_unwind(|| crash::parent(seed.wrapping_mul(1_000_003).wrapping_add(k as u64), hno, thorough)) {
+                    Ok((ev, n)) => {
+                        lines.extend(ev);
+                        points += n;
+                    }
+                    Err(p) => {
+                        lines.push(json!({"ev":"C.Reset","h":hno as i64,"readers":1}));
+                        lines.push(json!({"ev":"C.Failed","h":hno as i64,"seq":0,"msg":exec::panic_msg(p)}));
+                        points += 1;
+                    }
+                }
             }
             write_trace(&format!("{out}.ndjson"), &lines);
             std::fs::write(format!("{out}.hist.json"), json!((0..count).map(|k| json!({"label": format!("crash:{}", seed.wrapping_mul(1_000_003).wrapping_add(k as u64)), "indexes": [], "ops": []})).collect::<Vec<_>>()).to_string()).unwrap();
